@@ -53,6 +53,12 @@ type stubLedger struct {
 	chain []*blk // by height
 	byID  map[string]*blk
 	snap  map[string][]byte // bucket/key -> value, same for every snapshot
+	conf  []byte            // genesis consensus configuration (GetConsensusConf)
+	kv    map[string][]byte // contract storage as of the tip (bucket/key -> value), read by the tip reader first
+	// per-block snapshots (op tdel): the contract state as of block h, and injected storage faults
+	// (op = "snapshot" for CreateSnapshot, "get" for a read through a snapshot reader)
+	state func(h int64, bucket, key string) ([]byte, bool)
+	fault func(op, bucket, key string) error
 }
 
 func newStubLedger() *stubLedger {
@@ -64,7 +70,10 @@ func (l *stubLedger) put(b *blk) {
 	l.byID[string(b.id)] = b
 }
 
-func (l *stubLedger) GetConsensusConf() ([]byte, error) { return nil, nil }
+// putSide stores a block that is not on the main chain: found by id, never by height
+func (l *stubLedger) putSide(b *blk) { l.byID[string(b.id)] = b }
+
+func (l *stubLedger) GetConsensusConf() ([]byte, error) { return l.conf, nil }
 func (l *stubLedger) QueryBlock(id []byte) (ledger.BlockHandle, error) {
 	if b, ok := l.byID[string(id)]; ok {
 		return b, nil
@@ -82,23 +91,45 @@ func (l *stubLedger) GetTipXMSnapshotReader() (ledger.XMSnapshotReader, error) {
 	return tipReader{l}, nil
 }
 func (l *stubLedger) CreateSnapshot(id []byte) (ledger.XMReader, error) {
-	if _, ok := l.byID[string(id)]; !ok {
+	b, ok := l.byID[string(id)]
+	if !ok {
 		return nil, errNotFound
 	}
-	return snapReader{l}, nil
+	if l.fault != nil {
+		if err := l.fault("snapshot", "", ""); err != nil {
+			return nil, err
+		}
+	}
+	return snapReader{l, b.height}, nil
 }
-func (l *stubLedger) GetTipSnapshot() (ledger.XMReader, error) { return snapReader{l}, nil }
+func (l *stubLedger) GetTipSnapshot() (ledger.XMReader, error) {
+	return snapReader{l, int64(len(l.chain) - 1)}, nil
+}
 
 type tipReader struct{ l *stubLedger }
 
 func (r tipReader) Get(bucket string, key []byte) ([]byte, error) {
+	if v, ok := r.l.kv[bucket+"/"+string(key)]; ok {
+		return v, nil
+	}
 	return r.l.snap[bucket+"/"+string(key)], nil
 }
 
-type snapReader struct{ l *stubLedger }
+type snapReader struct {
+	l *stubLedger
+	h int64
+}
 
 func (r snapReader) Get(bucket string, key []byte) (*ledger.VersionedData, error) {
+	if r.l.fault != nil {
+		if err := r.l.fault("get", bucket, string(key)); err != nil {
+			return nil, err
+		}
+	}
 	v, ok := r.l.snap[bucket+"/"+string(key)]
+	if r.l.state != nil {
+		v, ok = r.l.state(r.h, bucket, string(key))
+	}
 	if !ok {
 		return nil, nil
 	}
